@@ -776,6 +776,14 @@ func (t *Term) Vars() map[int]struct{} {
 	if t.op == OpVar {
 		m[t.id] = struct{}{}
 	}
+	if t.op == OpApply {
+		// uninterpreted functions connect constraints through congruence: one pseudo symbol per name
+		h := 0
+		for i := 0; i < len(t.name); i++ {
+			h = h*131 + int(t.name[i])
+		}
+		m[-(h&0x3fffffff)-1] = struct{}{}
+	}
 	for _, a := range t.args {
 		for k := range a.Vars() {
 			m[k] = struct{}{}
